@@ -760,3 +760,47 @@ func (d *Driver) StringLengths(maxLen int) {
 	})
 	d.Samples = append(d.Samples, map[string]any{"family": "string-lengths", "strings": len(strs), "max_length": maxLen})
 }
+
+// NamespaceDepths: d namespaces left open, for every d up to maxDepth, opened by call-site fields, by
+// a With context (one segment, and one namespace per With call - the first two segments here), by an
+// object marshaler, and by an object that is an array element; always followed by a plain field, and
+// once more followed by a sibling field after the object. Counters, brace runs and scratch constants
+// of fixed size sit beyond the depths a hand-written case uses.
+func (d *Driver) NamespaceDepths(maxDepth int) {
+	c := DefaultCfg()
+	e := DefaultEnt()
+	e.Stack = "main.f\n\t/a.go:1"
+	par.For(maxDepth+1, func(depth int) {
+		l := d.local("namespace-depths")
+		enc := zapcore.NewJSONEncoder(c.EncoderConfig())
+		for pi, p := range NamespaceDepthPlacements(depth) {
+			p := p
+			l.one(c, enc, e, p, pi != 0, func(kind, msg string) string {
+				return fmt.Sprintf("namespace-depth:%s:%s:shape%d", kind, msgClass(msg), pi)
+			}, func() string { return fmt.Sprintf("%d namespaces left open, shape %d: %s", depth, pi, clipS(descP(p))) })
+		}
+		l.done()
+	})
+	d.Samples = append(d.Samples, map[string]any{"family": "namespace-depths", "max_depth": maxDepth})
+}
+
+// NamespaceDepthPlacements: the six shapes of NamespaceDepths for one depth.
+func NamespaceDepthPlacements(depth int) []Placement {
+	ns := func(n int) []*Spec {
+		var out []*Spec
+		for i := 0; i < n; i++ {
+			out = append(out, NamespaceSpec())
+		}
+		return out
+	}
+	obj := &Spec{Kind: KObject, Name: "object", Children: append(ns(depth), plain()), ErrAt: -1}
+	half := depth / 2
+	return []Placement{
+		{Call: append(ns(depth), plain())},
+		{With: [][]*Spec{ns(depth)}, Call: []*Spec{plain()}},
+		{With: [][]*Spec{append(ns(half), plain()), ns(depth - half)}, Call: []*Spec{plain(), NamespaceSpec(), plain()}},
+		{Call: []*Spec{obj, plain()}},
+		{With: [][]*Spec{{NamespaceSpec(), obj}}, Call: []*Spec{plain()}},
+		{Call: []*Spec{{Kind: KArray, Name: "array", ErrAt: -1, Elems: []*Elem{ElemInt(), {Name: "object", IsObj: true, Children: append(ns(depth), plain()), ErrAt: -1}, ElemInt()}}, plain()}},
+	}
+}
